@@ -59,7 +59,7 @@ func genC11(t *rapid.T) c11Case {
 	}
 	m := newRegModel(c.Conns)
 	n := rapid.IntRange(10, 30).Draw(t, "steps")
-	raced := false
+	raced, burst := false, false
 	everOwned := map[int]bool{}
 	for len(c.Macros) < n {
 		var undialed, fresh, joined []int
@@ -121,7 +121,14 @@ func genC11(t *rapid.T) c11Case {
 				delete(m.owner, k)
 			}
 		case choice <= 9:
-			c.Macros = append(c.Macros, macro{Op: "send", Key: rapid.IntRange(0, c.Keys-1).Draw(t, "key")})
+			key := rapid.IntRange(0, c.Keys-1).Draw(t, "key")
+			if o, ok := m.owner[key]; ok && o >= 0 && !burst && rapid.IntRange(0, 2).Draw(t, "burst") == 0 {
+				// six commands at once for an online key: more than the connection's hand-over queue holds
+				burst = true
+				c.Macros = append(c.Macros, macro{Op: "send_burst", Key: key})
+			} else {
+				c.Macros = append(c.Macros, macro{Op: "send", Key: key})
+			}
 		case !raced && choice == 10 && len(fresh) >= 2:
 			key := rapid.IntRange(0, c.Keys-1).Draw(t, "key")
 			if _, owned := m.owner[key]; owned {
@@ -224,6 +231,16 @@ func c11Compile(c c11Case) c11Plan {
 				expectFrames[o]++
 			}
 			steps[actors-1] = append(steps[actors-1], Step{Op: "send", Key: keyIdentity(mc.Key).key(), Cmd: 0x8104, Body: []byte{byte(id), 0x5a}, TimeoutMs: 500, CallID: id})
+		case "send_burst":
+			p.sc.WriteHoldUs = 15000 // a slow write callback keeps the owner's writer busy while the commands queue up
+			if o, ok := m.owner[mc.Key]; ok && o >= 0 {
+				expectFrames[o] += 6
+			}
+			for b := 0; b < 6; b++ {
+				id := 1000 + 10*i + b
+				steps[actors-1] = append(steps[actors-1], Step{Op: "send", Key: keyIdentity(mc.Key).key(), Cmd: 0x8104, Body: []byte{byte(id >> 8), byte(id), 0x5b}, TimeoutMs: 2000, CallID: id, Async: true})
+			}
+			steps[actors-1] = append(steps[actors-1], Step{Op: "join_calls", DeadlineMs: 3000})
 		case "race_hello":
 			f1 := frame(keyIdentity(mc.Key), 0x0002, serial, nil)
 			f2 := frame(keyIdentity(mc.Key), 0x0002, serial+1, nil)
@@ -325,6 +342,7 @@ func checkC11(c c11Case, _ *kit.Collector) kit.Result {
 		joinedKey[i] = -1
 	}
 	refusedDup, rejoin, races := false, false, false
+	bursts := false
 	everOwned := map[int]bool{}
 	for i, mc := range c.Macros {
 		name := fmt.Sprintf("c%d", mc.Conn)
@@ -412,6 +430,25 @@ func checkC11(c c11Case, _ *kit.Collector) kit.Result {
 				}
 				if r.DurUs > 1_000_000 {
 					res.Err = fmt.Errorf("SOFT step %d: not-exist error took %d ms", i, r.DurUs/1000)
+					return res
+				}
+			}
+		case "send_burst":
+			bursts = true
+			for b := 0; b < 6; b++ {
+				id := 1000 + 10*i + b
+				var r *Event
+				for k := range h.Events {
+					if h.Events[k].Kind == "call_result" && h.Events[k].Call == id {
+						r = &h.Events[k]
+					}
+				}
+				if r == nil {
+					res.Err = fmt.Errorf("SOFT step %d: command %d of a burst of six for the online key %d never returned", i, b, mc.Key)
+					return res
+				}
+				if r.Note == "not_exist" {
+					res.Err = kit.Fail("step %d: key %d is online (owned by c%d) but command %d of a burst of six returned the not-exist error", i, mc.Key, m.owner[mc.Key], b)
 					return res
 				}
 			}
@@ -532,6 +569,7 @@ func checkC11(c c11Case, _ *kit.Collector) kit.Result {
 	lab(refusedDup, "refused_duplicate")
 	lab(rejoin, "rejoin_after_leave")
 	lab(races, "concurrent_group")
+	lab(bursts, "burst_of_six_commands")
 	res.Labels = append(res.Labels, fmt.Sprintf("conns_%d", c.Conns))
 	res.NT = refusedDup && rejoin
 	return res
